@@ -46,6 +46,9 @@ def gen_histories(rng, k, r, tier):
 
 
 def run(c):
+    import gen_params as gp_mod
+    for pbm in gp_mod.generate_symbol(c.snap)["problems"]:      # ESI <-> column macros of of_symbol.h, regenerated; Properties_C04.v ties them to col_of
+        c.proof_failed.append({"translator": pbm})
     c.prove(["Properties_C04.v"])
     reqs, meta = [], []
     for (k, r, n1, seed) in gen_params(c.rng, c.tier):
